@@ -17,7 +17,8 @@ Comps == {"doc", "lint", "pubvis", "unsafe", "generics", "supertrait", "where", 
 OptSets == {"none", "unimock", "mockall", "ref", "borrow", "static-di", "dyn-di", "async_trait"}
 \* the shape of the generic parameter list (when there is one): one type parameter; a const parameter declared
 \* BEFORE the type parameter; a lifetime parameter; a defaulted type parameter; all of these at once
-GenericKinds == {"type", "const-first", "lifetime", "default", "mixed"}
+\* ("lifetime-where": two lifetime parameters and a where-predicate `'t: 'u` between them)
+GenericKinds == {"type", "const-first", "lifetime", "default", "mixed", "lifetime-where"}
 Inputs == { i \in [comps : SUBSET Comps, opt : OptSets, gk : GenericKinds \cup {"none"}] :
             /\ (i.gk = "none" <=> "generics" \notin i.comps)
             /\ ("where" \in i.comps => "generics" \in i.comps)
